@@ -37,6 +37,11 @@ SPEC = {
         "Sema.C08.C08_fit_then_flush", "Sema.C08.C08_fit_then_flush_binary", "Sema.C08.C08_flush_before_fit_witness",
         "Sema.C08.C08_flush_before_fit_params_witness", "Sema.C08.C08_train_in_batch_binary",
         "Sema.C08.C08_read_copies_stable", "Sema.C08.C08_read_copies_warm_cold", "Sema.C08.C08_alias_unstable_witness",
+        # read-only transactions (searches) and failed writes in the histories (SemaModel/C08/ReadOnly.lean)
+        "Sema.C08.C08_search_coherent", "Sema.C08.C08_history_mixed", "Sema.C08.C08_failed_kept_witness",
+        "Sema.C08.C08_search_coherent_partial", "Sema.C08.C08_history_mixed_partial",
+        # training is an allowed operation of a history (OpOk of `.mutate` is satisfiable, product quantiser included)
+        "Sema.C08.C08_fit_opok_binary", "Sema.C08.C08_fit_opok_product",
     ],
     "trusted_base": [
         "tools/facts_c08 and tools/facts_c04 (go/ast pattern extraction; an unrecognised shape is a hard error)",
@@ -47,7 +52,8 @@ SPEC = {
         "a query is a function of the overlay map `view` (it reaches the data only through Get / GetMany / ForEach)",
     ],
     "assumptions": [
-        "every Put in a transaction satisfies the Storable's write precondition w.r.t. the bucket of that transaction (OkRun): a vector or code is present, and a point without code is not shadowed by a stale code key",
+        "every Put in a transaction satisfies the Storable's write precondition w.r.t. the bucket of that transaction (OkRun / OkMixed): a vector or code is present, and a point without code is not shadowed by a stale code key; an in-place rewrite (`.mutate`, the quantisers' Fit) is judged on the values a transaction can hold for an id (agreeing with the bucket, or waiting to be written): C08_fit_opok_binary / _product discharge it for Fit",
+        "a failed write transaction leaves the bucket unchanged (bbolt rollback, assumed) and its caches are dropped (C11_failed_dropped); C08_failed_kept_witness shows that keeping them would break `view = obs`",
         "randomised construction (k-means of the product quantiser, the random entry vector and insert-worker interleaving of the Vamana graph) is part of the committed history: graph answers are compared between cache states of the same file, not between separately built shards",
         "repeated ids inside one update / delete batch are excluded (they are findings of C03/C05/C10: DESIGN section 8 nos. 12, 13)",
     ],
